@@ -127,22 +127,18 @@ func (self AnalyzedBoolLiteralExpression) Constant() bool    { return true }
 // String literal
 //
 
-// TODO: add more escapes
+// The replacer works in a single pass, so a backslash it inserts is never escaped again.
+var hmsStringEscaper = strings.NewReplacer(
+	"\\", "\\\\",
+	"\"", "\\\"",
+	"\n", "\\n",
+	"\t", "\\t",
+	"\r", "\\r",
+	"\b", "\\b",
+)
+
 func escapeHmsString(input string) string {
-	output := input
-
-	escapes := map[string]string{
-		"\n": "\\n",
-		"\"": "\\\"",
-		"\t": "\\n",
-	}
-
-	for from, to := range escapes {
-		output = strings.ReplaceAll(output, from, to)
-	}
-
-	return output
-
+	return hmsStringEscaper.Replace(input)
 }
 
 type AnalyzedStringLiteralExpression struct {
